@@ -14,6 +14,7 @@ from ebpfcat.ebpfcat import Device, DeviceVar
 FORMATS = "BHIQbhiq?x"
 SIZES = dict(B=1, H=2, I=4, Q=8, b=1, h=2, i=4, q=8, x=8)
 SIZES["?"] = 1
+SIZES.update({"3H": 6, "3B": 3, "2I": 8})     # multi-element formats
 _IDENT = {"?": "bool"}
 
 # boundary values per format; 'x' (fixed point, 1e-5) values are dyadic so
@@ -31,15 +32,22 @@ VALUES = {
     "?": [False, True, True, False, True],
     "x": [0.0, 0.5, -0.25, 1048576.125, -3.0],
 }
+VALUES["3H"] = [(0, 1, 2), (0xffff, 0, 0x8000), (1, 0xffff, 0x7fff),
+                (0x1234, 0x5678, 0x9abc), (0xffff, 0xffff, 0xffff)]
+VALUES["3B"] = [(0, 1, 2), (0xff, 0, 0x80), (1, 0xff, 0x7f),
+                (0x12, 0x56, 0x9a), (0xff, 0xff, 0xff)]
+VALUES["2I"] = [(0, 1), (0xffffffff, 0), (1, 0x80000000),
+                (0x12345678, 0x9abcdef0), (0xffffffff, 0xffffffff)]
 NVALUES = 5
 # a value whose encoding has no zero byte, to find the bytes a variable owns
 PROBE = {"B": 0xff, "H": 0xffff, "I": 0xffffffff, "Q": 0xffffffffffffffff,
-         "b": -1, "h": -1, "i": -1, "q": -1, "?": True, "x": -0.5}
+         "b": -1, "h": -1, "i": -1, "q": -1, "?": True, "x": -0.5,
+         "3H": (0xffff,) * 3, "3B": (0xff,) * 3, "2I": (0xffffffff,) * 2}
 
 
 def value_for(fmt, k, extra=0):
     """the value written in round k to a variable of format fmt"""
-    if extra and fmt not in "?x":
+    if extra and len(fmt) == 1 and fmt not in "?x":
         # seeded extra value: stays inside the format's range
         bits = 8 * SIZES[fmt]
         v = (extra * 0x9E3779B97F4A7C15 + k * 0x632BE59BD9B4E019) \
@@ -87,7 +95,37 @@ class Dev_sub_B_x(Dev_base_H_q):
     v3 = DeviceVar("x")
 
 
-for _cls in (Dev_base_H_q, Dev_sub_B_x):
+class Dev_base_ovr(Device):
+    """a class and a subclass that RE-DECLARES an inherited variable with a
+    wider format (the subclass's declaration is the one that counts)"""
+    FMTS = ("H", "B", "H")
+    v0 = DeviceVar("H")
+    v1 = DeviceVar("B")
+    v2 = DeviceVar("H")
+
+
+class Dev_sub_ovr(Dev_base_ovr):
+    FMTS = ("q", "B", "H")
+    v0 = DeviceVar("q")
+
+
+class Dev_sub_multi(Device):
+    """multi-element formats whose size is not a power of two"""
+    FMTS = ("3H", "?", "3B")
+    v0 = DeviceVar("3H")
+    v1 = DeviceVar("?")
+    v2 = DeviceVar("3B")
+
+
+class Dev_sub_multi2(Device):
+    FMTS = ("2I", "3B", "H")
+    v0 = DeviceVar("2I")
+    v1 = DeviceVar("3B")
+    v2 = DeviceVar("H")
+
+
+for _cls in (Dev_base_H_q, Dev_sub_B_x, Dev_base_ovr, Dev_sub_ovr,
+             Dev_sub_multi, Dev_sub_multi2):
     CLASSES[_cls.__name__] = _cls
     ORDER.append(_cls.__name__)
 
